@@ -464,6 +464,68 @@ func c11Worker(args []string) {
 			}
 		}
 	}
+	// script values the host made and nobody has read yet (a Hash, an Array), given to eight
+	// evaluators and read by all of them at the same moment - in order (keys, string, foreach),
+	// sorted, reversed: whatever a value computes and keeps on first use is computed under
+	// concurrency (released through a barrier, as the struct types above)
+	{
+		const workers = 8
+		evals := make([]*evalfilter.Eval, workers)
+		for w := range evals {
+			evals[w] = evalfilter.New(`n = 0; foreach kk, vv in H { n = n + vv; } return string(keys(H)) == W && n == Sum && len(string(H)) > 100 && string(sort(A)) == SA && len(reverse(A)) == len(A) && ("k3" in keys(H));`)
+			if err := evals[w].Prepare(); err != nil {
+				res.Errors = append(res.Errors, "prepare: "+err.Error())
+			}
+		}
+		var mmu sync.Mutex
+		for tn := 0; tn < 120*rounds; tn++ {
+			h := &object.Hash{Pairs: map[object.HashKey]object.HashPair{}}
+			var ks []string
+			sum := 0
+			for q := 0; q < 30; q++ {
+				key := &object.String{Value: fmt.Sprintf("k%d", q)}
+				h.Pairs[key.HashKey()] = object.HashPair{Key: key, Value: &object.Integer{Value: int64(q + tn)}}
+				ks = append(ks, key.Value)
+				sum += q + tn
+			}
+			sort.Strings(ks)
+			arr := &object.Array{}
+			var as []string
+			for q := 0; q < 20; q++ {
+				arr.Elements = append(arr.Elements, &object.String{Value: fmt.Sprintf("e%02d", (q*7+tn)%20)})
+				as = append(as, fmt.Sprintf("e%02d", (q*7+tn)%20))
+			}
+			sort.Strings(as)
+			for w := range evals {
+				evals[w].SetVariable("H", h)
+				evals[w].SetVariable("A", arr)
+				evals[w].SetVariable("W", &object.String{Value: "[" + strings.Join(ks, ", ") + "]"})
+				evals[w].SetVariable("SA", &object.String{Value: "[" + strings.Join(as, ", ") + "]"})
+				evals[w].SetVariable("Sum", &object.Integer{Value: int64(sum)})
+			}
+			start := make(chan struct{})
+			var wgT sync.WaitGroup
+			for w := 0; w < workers; w++ {
+				wgT.Add(1)
+				go func(w int) {
+					defer wgT.Done()
+					<-start
+					ok, err := evals[w].Run(nil)
+					if err != nil || !ok {
+						mmu.Lock()
+						res.OwnMismatch = append(res.OwnMismatch, fmt.Sprintf("fresh host values #%d, evaluator %d: Run gives %v err=%v (expected true)", tn, w, ok, err))
+						mmu.Unlock()
+					}
+				}(w)
+			}
+			close(start)
+			wgT.Wait()
+			res.OwnRuns += workers
+			if len(res.OwnMismatch) > 20 {
+				break
+			}
+		}
+	}
 	// deep recursion in eight evaluators at the same moment: 8 x 4000 nested calls is far
 	// beyond the limit one machine has, and every machine has its own
 	{
